@@ -166,7 +166,7 @@ func c02Stream(cs *drv.Case, vals []ref.Value, encs [][]byte, trail []byte, sche
 func monC02(c *drv.Ctx) {
 	types := ref.KnownTypes
 	// (1) random trees, several values per stream
-	c.Stage("trees", c.Pick(12000, 1500000), false, func(cs *drv.Case) {
+	c.Stage("trees", c.Pick(100000, 2000000), false, func(cs *drv.Case) {
 		r := cs.R
 		nv := 1 + r.Intn(3)
 		var vals []ref.Value
